@@ -3,9 +3,14 @@
 Coq project coq/c07 (on top of the shared engine core coq/engine and the mechanism model coq/limiter):
   MonC07.v     mon_cont_deferred = the formal statement of the property over one observed trace, one small fold
                per scope (plan / block), clauses 1-14 in its header (read it first);
-  props/C07.v  the theorems: every trace the observable automaton accepts satisfies the monitor, for all shapes,
-               traces and interleavings; plus the ContChan mechanism theorems (no_failure_lost, failure_conserved,
-               at_most_one_failed, no_send_after_close, drain_progress) restated from coq/limiter.
+  props/C07.v  c07_cont_deferred: forall sh tr s, shape_wf sh = true -> run sh init tr = Some s -> mon_cont_deferred (sh, tr) = true
+               (all shapes, traces, interleavings; all 15 clauses); c07_deferred_exactly_once (at traces ending in
+               EvRelease); c07_thread_alive_plan / _block (the safety half of "keeps being re-run"); plus the ContChan
+               mechanism theorems (no_failure_lost, failure_conserved, at_most_one_failed, no_send_after_close,
+               drain_progress) restated from coq/limiter.  Proof: product invariant automaton x monitor per scope
+               (C07Plan.v, C07Block.v) over the reachable-state invariants Inv.pinv (copied from coq/c06), C07XInv, C07YInv.
+  Examples.v   a real two-block trace with a failing continuous and deferred group: accepted, monitor true; mutations
+               (deferred runs erased / doubled, failure lost in the released plan) and a hand-written bad trace: false.
 
 What runs (props/engine_common.run_engine_check):
   * pre-checks: mech.check_mechanisms (coq/limiter re-checked + statement shape of runContChecks / contChecksPassing /
